@@ -545,7 +545,38 @@ func (e *Engine) lookup(f *frame, x *ssa.Lookup) Value {
 	} else {
 		vt = x.X.Type().Underlying().(*types.Map).Elem()
 	}
-	i := e.mapFind(m, e.get(f, x.Index))
+	key := e.get(f, x.Index)
+	// a map whose values are all the same (a set): the lookup forks two ways
+	// (present / absent) instead of once per key
+	if m != nil && len(m.Keys) > 1 {
+		if kt, isTerm := key.(*smt.Term); isTerm && !kt.IsConst() {
+			same := true
+			for _, mv := range m.Vals[1:] {
+				if !e.valEqNoFork(mv, m.Vals[0]) {
+					same = false
+					break
+				}
+			}
+			if same {
+				found := e.ctx.False
+				for _, k := range m.Keys {
+					found = e.ctx.Or(found, e.valEq(k, key, nil))
+				}
+				var v Value
+				ok := e.branch(found)
+				if ok {
+					v = m.Vals[0]
+				} else {
+					v = e.zero(vt)
+				}
+				if x.CommaOk {
+					return Tuple{v, e.ctx.Bool(ok)}
+				}
+				return v
+			}
+		}
+	}
+	i := e.mapFind(m, key)
 	var v Value
 	if i >= 0 {
 		v = m.Vals[i]
